@@ -62,6 +62,7 @@ def check(ctx):
     ctx.rule("C20-R3", "registration agreement: add_get <-> closure reading the query, add_post <-> closure reading the posted form; registered path is the loop's route; handler/route bound as defaults from this iteration's values; handler argument is dict(<source>)")
     ctx.rule("C20-R4", ".webc: blocks on the shutdown coroutine before returning 1; shutdown awaits runner.cleanup() and then clears the handle")
     ctx.rule("C20-R5", "websocket listener: exactly one recv, one decode and one awaited dispatch to .ws.m per invocation; the listener loop awaits each invocation; the server side calls the handler once and completes the result future exactly once on every path")
+    ctx.rule("C20-R6", "websocket codec: values are sent as json.dumps(value, cls=<array encoder>) with no option that drops, reorders or rejects entries (sort_keys, skipkeys, default=); messages are decoded with json.loads of the received text, unmodified")
     ctx.trust("default argument values are evaluated when the def statement runs", "aiohttp: add_get/add_post register the coroutine for that method and path only")
 
     # ---- R1 (whole repository)
@@ -82,11 +83,31 @@ def check(ctx):
     _check_routes(ctx, repo)
     _check_shutdown(ctx, repo)
     _check_ws(ctx, repo)
+    _check_codec(ctx, repo)
     # the handler wrapper (dynamic re-resolution): shared with C09 - at most one dispatch per call, call-time lookup
     ctx.rule("C09-R2", "shared with C09: arity guard dominates every dispatch of the re-resolving wrapper")
     ctx.rule("C09-R3", "shared with C09: the wrapper resolves its symbol at call time and dispatches at most once per call, even if the handler raises")
     from . import c09
     c09._r2_r3(ctx, repo)
+
+
+def _check_codec(ctx, repo):
+    enc = repo.fn(f"{WS}:encode_message")
+    dec = repo.fn(f"{WS}:decode_message")
+    for f, fn, lossy in ((enc, "dumps", ("sort_keys", "skipkeys", "default", "check_circular", "allow_nan")), (dec, "loads", ("object_hook", "object_pairs_hook", "parse_float", "parse_int", "parse_constant"))):
+        ctx.instance("C20-R6", f.fq)
+        calls = [c for c in calls_in(f.node) if dotted(c.func) == f"json.{fn}"]
+        p0 = f.params()[0]
+        ok = len(calls) == 1 and calls[0].args and isinstance(calls[0].args[0], ast.Name) and calls[0].args[0].id == p0
+        ctx.ob("C20-R6", f.fq, f"one json.{fn} call on the function's argument, unmodified", bool(ok), node=f.node, construct=f"json.{fn} on the argument itself",
+               msg=f"{f.name} does not hand its argument to json.{fn} as it is")
+        for c in calls:
+            bad = [k.arg for k in c.keywords if k.arg in lossy and not (isinstance(k.value, ast.Constant) and k.value.value in (False, None) and k.arg not in ("check_circular", "allow_nan"))]
+            ctx.ob("C20-R6", f.fq, f"json.{fn} is called without options that change which entries/values arrive ({', '.join(lossy[:3])}, ...)", not bad, node=c,
+                   construct=f"json.{fn} option {bad[0] if bad else ''}",
+                   msg=f"json.{fn}(..., {bad[0] if bad else ''}=...) changes the encoded value: sort_keys reorders dictionary entries and raises TypeError on mixed key types, skipkeys silently drops entries, hooks rewrite values")
+        rets = [r for r in walk_local(f.node) if isinstance(r, ast.Return)]
+        ctx.ob("C20-R6", f.fq, f"the result of json.{fn} is returned as it is", len(rets) == 1 and rets[0].value in calls, node=f.node, construct=f"json.{fn} result returned unmodified")
 
 
 def _check_routes(ctx, repo):
@@ -369,6 +390,10 @@ MUTATION_SCOPE = ['web/sys_fn_web:eval_sys_fn_create_web_server',
                   'types:KGFnWrapper.__call__']
 
 SEEDS = [
+    Seed("ws-encode-sort-keys", "fault", WS, "    return json.dumps(msg, cls=NumpyEncoder)", "    return json.dumps(msg, cls=NumpyEncoder, sort_keys=True)", rule="C20-R6"),
+    Seed("ws-encode-skipkeys", "fault", WS, "    return json.dumps(msg, cls=NumpyEncoder)", "    return json.dumps(msg, cls=NumpyEncoder, skipkeys=True)", rule="C20-R6"),
+    Seed("ws-decode-strips", "fault", WS, "    return json.loads(data)", "    return json.loads(data.strip()[:65536])", rule="C20-R6"),
+    Seed("refactor-ws-encode-separators", "refactor", WS, "    return json.dumps(msg, cls=NumpyEncoder)", "    return json.dumps(msg, cls=NumpyEncoder, separators=(',', ':'))"),
     Seed("drop-fn-default-get", "fault", WEB, "async def _get(request: web.Request, fn=fn_wrapped, route=route):\n            try:\n                assert request.method == \"GET\"\n                return web.Response(text=str(fn(",
          "async def _get(request: web.Request, route=route):\n            try:\n                assert request.method == \"GET\"\n                return web.Response(text=str(fn_wrapped(", rule="C20-R1"),
     Seed("drop-route-default-post", "fault", WEB, "async def _post(request: web.Request, fn=fn_wrapped, route=route):", "async def _post(request: web.Request, fn=fn_wrapped):\n            logging.info(route)", rule="C20-R1"),
